@@ -18,7 +18,7 @@
      gives the explicit outcome PUnmodelled (never equal to an implementation outcome).
    Loops whose step consumes a variable number of bytes carry fuel = length of the input;
    running out is the explicit outcome POutOfFuel, excluded by the theorems.  Definitions only. *)
-From LV Require Import Base.Bytes Model.CMap.
+From LV Require Import Base.Bytes Model.CMap Gen.CMapC.
 
 Inductive pres (A : Type) :=
 | POk (a : A) (rest : bytes)
@@ -135,7 +135,7 @@ Definition code_of_bytes (vs : list N) : N := fold_left (fun acc v => acc * 256 
 
 Definition source_code (s : bytes) : pres (N * N) :=
   let* (_, r) := tag [x3c] s in
-  match hex_chars 4 r with
+  match hex_chars (N.to_nat CMAP_SRC_MAX_BYTES) r with
   | ([], _) => PErr
   | (vs, r') =>
     let* (_, r'') := tag [x3e] r' in
@@ -160,7 +160,7 @@ Fixpoint target_units (cnt : nat) (s : bytes) : list N * bytes :=
 
 Definition target_string (s : bytes) : pres (list N) :=
   let* (_, r) := tag [x3c] s in
-  match target_units 256 r with
+  match target_units (N.to_nat CMAP_TARGET_MAX_UNITS) r with
   | ([], _) => PErr
   | (us, r') => let* (_, r'') := tag [x3e] r' in POk us r''
   end.
@@ -405,7 +405,7 @@ Fixpoint metadata_upto (cnt : nat) (s : bytes) : pres unit :=
     end
   end.
 Definition cmap_metadata (s : bytes) : pres unit :=
-  let* (_, r) := metadata_item s in metadata_upto 3 r.
+  let* (_, r) := metadata_item s in metadata_upto (N.to_nat CMAP_META_MAX - 1) r.
 
 (* ---------- frame ---------- *)
 Definition T_CIDInit := Eval cbv in bs "/CIDInit".
